@@ -64,6 +64,26 @@ SEEDS = {
  'C16-r2-joliet-cache-survives-rm': (None, 'C16', 'a lookup by joliet_path, removal of the file, then a read of that name (or of the re-added name) by joliet_path', ['C16', 'C07']),
  'C17-r2-zero-pad-full-sector': (None, 'C17', 'new length a non-zero multiple of 2048 with something directly behind the file', ['C17']),
  'C17-r2-boundary-ge-offsets': (None, 'C17', 'a multi-sector directory whose records fill a sector exactly; the target is the boundary record or a later one', ['C17']),
+ 'C03-r2-dotdot-length-after-shrink': (None, 'C03', 'a directory spanning two sectors with a sub-directory that sorts before the removed entry, and a removal that frees a whole sector', ['C03']),
+ 'C03-r2-dirwriter-ge-exact-fit': (None, 'C03', 'as C01-r2-dirwriter-ge-exact-fit (independently written)', ['C03', 'C01']),
+ 'C05-r2-udf-fid-parse-boundary': (None, 'C05', 'a UDF directory whose file identifiers hit 2048 bytes exactly (a FID starting on the block boundary), opened and written again', ['C05']),
+ 'C05-r2-sl-continue-flag-parse': (None, 'C05', 'a symlink target needing two SL records with the split between two components (first component of 128..134 characters)', ['C05', 'C08']),
+ 'C08-r2-sl-continue-only-when-split': (None, 'C08', 'a symlink target too long for one SL record made of several short components', ['C08']),
+ 'C08-r2-ce-gap-inclusive-end': (None, 'C08', 'as C04-r2-ce-gap-inclusive-end (independently written)', ['C08', 'C04']),
+ 'C09-r2-relayout-early-exit-index': (None, 'C09', 'a Joliet directory spanning two extents; insertion into the slack of the first, then removal in the second', ['C09', 'C01']),
+ 'C09-r2-joliet-limit-code-points': (None, 'C09', 'a Joliet name with more than 32 characters outside the BMP', ['C09', 'C13']),
+ 'C12-r2-stale-gpt-unmoved-efi': (None, 'C12', 'an EFI hybrid whose GPT was already computed, then a size-changing edit that leaves the boot files in place', ['C12']),
+ 'C12-r2-padding-forgets-backup-header': (None, 'C12', 'an EFI hybrid whose ISO ends exactly 16 KiB before a cylinder boundary (or tiny geometries)', ['C12']),
+ 'C13-r2-tail-fast-path': (None, 'C13', 'add_hard_link onto the name that sorts last in its directory', ['C13']),
+ 'C13-r2-udf-length-in-characters': (None, 'C13', 'a UDF name of 128..254 characters with at least one character outside Latin-1', ['C13', 'C10']),
+ 'C15-r2-joliet-directory-cycle': (None, 'C15', 'a Joliet image whose Joliet tree contains a directory pointing back at an ancestor', ['C15']),
+ 'C15-r2-udf-root-entry-unreadable': (None, 'C15', 'a UDF image whose root File Entry sector is zeroed or whose root ICB points outside the image', ['C15']),
+ 'C18-r2-unicode-decimal-digits': (None, 'C18', 'a source name with a non-ASCII decimal digit at level 1-3', ['C18']),
+ 'C18-r2-facade-parent-cache': (None, 'C18', 'one Rock Ridge facade kept and re-used after the directory it added to was removed and its ISO9660 name re-used under another Rock Ridge name', ['C18']),
+ 'C19-r2-leap-year-new-year': (None, 'C19', 'a zone other than UTC and an instant within the offset of the New Year that follows a leap year', ['C19']),
+ 'C19-r2-udf-dst-all-year': (None, 'C19', 'a UDF image, a zone with DST rules and an instant in its standard-time period', ['C19']),
+ 'C20-r2-nm-appended-to-fallback': (None, 'C20', '-iso-level 4 with -R and a name of about 182..193 bytes (no NM byte fits the directory record), after reopening', ['C20', 'C08']),
+ 'C20-r2-udf-file-entry-cache': (None, 'C20', '-udf with -scan-for-duplicates and two files of identical content, extracted through the UDF view', ['C20', 'C07']),
 }
 only = sys.argv[1:]
 if only == ['--collect']:
